@@ -167,6 +167,13 @@ func (f *Frame) analyse() {
 			case *ssa.Phi:
 				if in.Comment != "" {
 					f.names[in.Comment] = append(f.names[in.Comment], nameDef{val: in, block: b, idx: i})
+					// the index of an enclosing range loop can be named from an inner loop as rangeindexL<ordinal>
+					if in.Comment == "rangeindex" {
+						if lp := f.loopAt[b]; lp != nil {
+							n := fmt.Sprintf("rangeindexL%d", lp.Ordinal)
+							f.names[n] = append(f.names[n], nameDef{val: in, block: b, idx: i})
+						}
+					}
 				}
 			case *ssa.DebugRef:
 				obj := in.Object()
